@@ -31,6 +31,8 @@ const REAL_LIMIT: usize = 1024 * 1024;
 fn dec_class(d: &str, ack: bool) -> &'static str {
     match d {
         "stall" => "stall",
+        "sth" | "stm" => "stallbody",
+        "stt" => "stalltrail",
         "dropb" => "dropb",
         "dropa" => "dropa",
         "after_stall" => "after_stall",
@@ -217,7 +219,7 @@ fn run_scenario(coll: &Collector, s: &Value, flush_timeout: Duration) -> Outcome
     // every stall the collector scripted costs the client exactly one timeout; more timeouts
     // than stalls means the machine was too slow for the (shortened) request timeout
     let client_timeouts = client::client_timeouts(&ports) - timeouts0;
-    let stalls = trace.iter().filter(|e| e["ev"] == "Req" && (e["dec"] == "stall" || e["dec"] == "after_stall")).count() as u64;
+    let stalls = trace.iter().filter(|e| e["ev"] == "Req" && (e["dec"] == "stall" || e["dec"] == "after_stall" || e["dec"] == "stallbody" || e["dec"] == "stalltrail")).count() as u64;
     let abandoned = snap.iter().filter(|e| e["ev"] == "Abandoned").count();
     let summary = json!({
         "client_timeouts": client_timeouts, "stalls": stalls, "abandoned": abandoned,
